@@ -265,6 +265,9 @@ func mainCheck(args []string) int {
 			failed = append(failed, o)
 		}
 		obls = append(obls, oblReport{o.Name, o.Kind, o.Desc, o.Result, o.Solver, o.Ms})
+		if *verbose && o.Ms > 1500 {
+			fmt.Printf("      slow: %s %dms %s (%s)\n", o.Name, o.Ms, o.Result, o.Solver)
+		}
 		if len(samples) < 4 && o.Solver != "syntactic" && ok {
 			samples = append(samples, map[string]string{"obligation": o.Name, "kind": o.Kind, "meaning": o.Desc, "goal_smt": j.x.tc.Show(o.Goal), "path_condition_smt": j.x.tc.Show(o.Guard), "verdict": o.Result + " by " + o.Solver})
 		}
